@@ -32,11 +32,7 @@ pub open spec fn fields_built(reg: &TypeRegistry, scope: Seq<ItemPath>, stmts: S
     &&& forall|j: int| off <= j < k ==> field_region(reg, scope, #[trigger] stmts[j], pending[j - off])
 }
 /// power of two (Rust reference: alignments are powers of two)
-pub open spec fn is_pow2(n: nat) -> bool
-    decreases n
-{
-    if n == 0 { false } else if n == 1 { true } else { n % 2 == 0 && is_pow2(n / 2) }
-}
+pub open spec fn is_pow2(n: nat) -> bool { pow2(n) }
 /// every region's type has a known, non-zero alignment that divides its offset (repr(C) then adds no padding)
 pub open spec fn offsets_aligned_upto(rs: Seq<Region>, n: int, reg: &TypeRegistry) -> bool {
     forall|i: int| 0 <= i < n ==> ty_align(#[trigger] rs[i].type_ref, reg) is Some
@@ -117,5 +113,68 @@ pub open spec fn impl_functions_attached(reg: &TypeRegistry, scope: Seq<ItemPath
 }
 pub open spec fn impl_block_of(m: &crate::semantic::Module, p: ItemPath) -> Option<grammar::FunctionBlock> {
     if m.impls@.contains_key(p) { Some(m.impls@[p]) } else { None }
+}
+
+// ---------- C03, both directions, for the alignment block ----------
+pub open spec fn region_aligns(rs: Seq<Region>, reg: &TypeRegistry) -> Seq<Option<usize>> { Seq::new(rs.len(), |i: int| ty_align(rs[i].type_ref, reg)) }
+/// exactly the descriptions the alignment block of `type_definition::build` accepts
+pub open spec fn alignment_accepts(packed: bool, align: Option<usize>, rs: Seq<Region>, size: usize, reg: &TypeRegistry) -> bool {
+    if packed { align is None } else {
+        let eff = chosen_alignment(packed, align, rs, reg);
+        let req = lcm_fold(region_aligns(rs, reg), rs.len() as int);
+        &&& (align is Some ==> is_pow2(align->0 as nat))
+        &&& req is Some && req->0 <= eff
+        &&& offsets_aligned_upto(rs, rs.len() as int, reg)
+        &&& eff > 0 && size % eff == 0
+    }
+}
+pub proof fn lemma_not_aligned(rs: Seq<Region>, j: int, reg: &TypeRegistry)
+    requires 0 <= j < rs.len(), ty_align(rs[j].type_ref, reg) is Some,
+             ty_align(rs[j].type_ref, reg)->0 == 0 || offset_of(rs, j, reg) % (ty_align(rs[j].type_ref, reg)->0 as nat) != 0
+    ensures !offsets_aligned_upto(rs, rs.len() as int, reg)
+{
+    if offsets_aligned_upto(rs, rs.len() as int, reg) {
+        lemma_off_aligned_pos(offset_of(rs, j, reg), ty_align(rs[j].type_ref, reg)->0);
+    }
+}
+
+/// the alignment conditions of C03 as the property states them: packed types are exempt (and must not carry
+/// `align`); otherwise the effective alignment is a power of two, not smaller than any field's alignment, every
+/// offset is a multiple of its field's alignment and the size is a multiple of the effective alignment
+pub open spec fn alignment_realisable(packed: bool, align: Option<usize>, rs: Seq<Region>, size: usize, reg: &TypeRegistry) -> bool {
+    if packed { align is None } else {
+        let eff = chosen_alignment(packed, align, rs, reg);
+        &&& is_pow2(eff as nat)
+        &&& aligns_le(rs, eff, reg)
+        &&& offsets_aligned_upto(rs, rs.len() as int, reg)
+        &&& size % eff == 0
+    }
+}
+/// C03 for the alignment block: on the domain of the property (every field alignment and the pointer size a
+/// power of two) the block accepts exactly the realisable descriptions
+pub proof fn lemma_alignment_accepts_iff_realisable(packed: bool, align: Option<usize>, rs: Seq<Region>, size: usize, reg: &TypeRegistry)
+    requires all_pow2(region_aligns(rs, reg)), is_pow2(reg.pointer_size as nat)
+    ensures alignment_accepts(packed, align, rs, size, reg) <==> alignment_realisable(packed, align, rs, size, reg)
+{
+    if !packed {
+        let vals = region_aligns(rs, reg);
+        let eff = chosen_alignment(packed, align, rs, reg);
+        lemma_lcm_fold_pow2(vals, vals.len() as int);
+        assert(aligns_le(rs, eff, reg) <==> all_le(vals, vals.len() as int, eff)) by {
+            if aligns_le(rs, eff, reg) {
+                assert forall|i: int| 0 <= i < vals.len() implies (#[trigger] vals[i]) is Some && vals[i]->0 <= eff by { assert(ty_align(rs[i].type_ref, reg) is Some); }
+            }
+            if all_le(vals, vals.len() as int, eff) {
+                assert forall|i: int| 0 <= i < rs.len() implies ty_align(#[trigger] rs[i].type_ref, reg) is Some && ty_align(rs[i].type_ref, reg)->0 <= eff by { assert(vals[i] is Some); }
+            }
+        }
+        if align is None && rs.len() == 1 { assert(vals[0] is Some && pow2(vals[0]->0 as nat)); }
+        if alignment_realisable(packed, align, rs, size, reg) {
+            assert(eff >= 1);
+        }
+        if alignment_accepts(packed, align, rs, size, reg) {
+            assert(is_pow2(eff as nat));
+        }
+    }
 }
 }
